@@ -86,3 +86,25 @@ Theorem C20_generated_debug_page_only_when_on :
     debug = true /\ Routing.req_path raw = Routing.debug_path.
 Proof. exact gen_debug_only_when_on. Qed.
 Print Assumptions C20_generated_debug_page_only_when_on.
+
+(* ---- generated census of the places that consult an override key
+   (harness/py2v_inputs.py -> gen/InputsGen.v, from the current wsgi.py and
+   request.py): a poor_* / poor.* / uwsgi.* key is looked up only where the
+   model of the override says — in SimpleRequest, from the environment
+   chosen per request — and nowhere else (not when the application object is
+   built, not in the dispatch code). *)
+From Coq Require Import String.
+Local Open Scope string_scope.
+Local Open Scope list_scope.
+Require Import PW.model.Inputs PW.gen.InputsGen.
+
+Theorem C20_generated_override_keys_are_read_where_modelled :
+  (forall r, In r keyed_reads -> is_override_key (kr_key r) = true ->
+             In r allowed_override_reads) /\
+  In ("request.SimpleRequest.__init__", "self.__poor_environ", "get",
+      "poor_Debug") keyed_reads.
+Proof.
+  split; [apply reads_ok_spec; vm_compute; reflexivity|].
+  vm_compute; tauto.
+Qed.
+Print Assumptions C20_generated_override_keys_are_read_where_modelled.
